@@ -15,7 +15,7 @@ from vlib import model, workspace
 from vlib.harness import hyp_settings, Violation, quiet, collecting
 
 PROPERTY = "C14"
-RULE = ("a pool of 19 deliberately dissimilar (country|world, scenario) items (both nutrition profiles, populations 3e5..1.4e9, horizons 48 "
+RULE = ("a pool of 21 deliberately dissimilar (country|world, scenario) items (both nutrition profiles, populations 3e5..1.4e9, horizons 48 "
         "and 120, with/without resilient foods, different waste, country and world scale); the digest (SHA-256 over the headline, every "
         "monthly series of the result, the meat and herd trajectories, raw float64 bytes) of each item computed ALONE in a freshly spawned "
         "interpreter is the reference; a rule-based state machine then runs histories of 2..6 steps in one process - run item i, run the "
@@ -52,6 +52,9 @@ POOL = [
     # any column of the input table can be overridden from the scenario file: the same country with another population / harvest
     ("ARG", dict(B, population=30000000, NMONTHS=48)),
     ("USA", dict(B, population=90000000, crop_kcals=2.0e8, NMONTHS=48)),
+    # ... also columns only one resilient food reads: the same seaweed scenario with and without other monthly growth rates
+    ("ARG", dict(B, scenario="seaweed", NMONTHS=48, **NW)),
+    ("ARG", dict(B, scenario="seaweed", NMONTHS=48, **dict(NW, **{"seaweed_growth_per_day_%d" % m: 1.0 for m in range(6, 18)}))),
 ]
 # batches: several countries run by ONE call of the multi-country runner with ONE option dictionary (the runner shares it between the
 # countries of a batch, in the row order of the input table); every country's result must be what it is when run alone.  Three batches
@@ -111,6 +114,46 @@ def _alone(i):
         if line.startswith("DIGEST "):
             return json.loads(line[7:])
     raise RuntimeError("reference run %d failed: %s" % (i, p.stderr[-500:]))
+
+
+def _alone_options(iso, o):
+    """digest of an arbitrary (country, options) run computed alone in a fresh interpreter"""
+    code = ("import sys, json; sys.path.insert(0, %r); import os; os.chdir(%r); sys.path.insert(0, %r); from checks import c14; from vlib import model; "
+            "r = model.run_case(%r, json.loads(%r), title='c14_alone', capture=False); "
+            "print('DIGEST ' + json.dumps([c14.digest(r['result']) if r['ok'] else None, None if r['ok'] else r['exc_msg']]))"
+            % (workspace.VERIF, workspace.scratch(), workspace.scratch(), iso, json.dumps(o)))
+    env = dict(os.environ, PYTHONPATH=workspace.scratch() + os.pathsep + workspace.VERIF, MPLBACKEND="Agg", PYTHONHASHSEED="0")
+    p = subprocess.run([sys.executable, "-c", code], cwd=workspace.scratch(), env=env, capture_output=True, text=True)
+    for line in p.stdout.splitlines():
+        if line.startswith("DIGEST "):
+            return json.loads(line[7:])
+    raise RuntimeError("stand-alone run of %s failed: %s" % (iso, p.stderr[-500:]))
+
+
+def column_pair(ctx, iso, column, factor):
+    """the same country twice in a row, the second time with ONE column of its input row overridden from the scenario (any column can
+    be): the second result must be what that run gives alone in a fresh process"""
+    t = model.country_table()
+    base = float(t.loc[t["iso3"] == iso, column].iloc[0])
+    o1 = dict(B, scenario="all_resilient_foods", shutoff="continued", NMONTHS=48, **NW)
+    o2 = dict(o1, **{column: base * factor if base != 0 else 1.0})
+    case = dict(kind="column_pair", iso3=iso, column=column, factor=factor)
+    r1 = model.run_case(iso, copy.deepcopy(o1), title="c14_cp_%d" % ctx.shard, capture=False)
+    r2 = model.run_case(iso, copy.deepcopy(o2), title="c14_cp_%d" % ctx.shard, capture=False)
+    ref, err = _alone_options(iso, o2)
+    ctx.event("column_pair")
+    if ref is None or not r1["ok"] or not r2["ok"]:
+        if ref is not None and r1["ok"] and not r2["ok"]:
+            ctx.fail("run-fails-after-other-runs-although-it-completes-alone", "%s with %s overridden, after the same country without it" % (iso, column), case)
+        ctx.abort("column_pair_run_does_not_complete")
+        return
+    d1, d2 = digest(r1["result"]), digest(r2["result"])
+    if d2 != ref:
+        ctx.fail("result-differs-from-the-same-run-computed-alone",
+                 "%s with column %s x %g after the same country without the override: digest %s.., %s.. alone in a fresh process%s" %
+                 (iso, column, factor, d2[:12], ref[:12], " (= the digest of the run without the override)" if d2 == d1 else ""), case)
+    if d1 != d2:
+        ctx.nontrivial_case(["column_pair", iso, column])
 
 
 def prepare(tier):
@@ -286,6 +329,17 @@ def shard(ctx):
             ctx.nontrivial_case(["same-country pair", a, b])
         except Violation as v:
             ctx.record_violation(v)
+    # ... and with a DRAWN column of the input table overridden in the second run (numeric columns only; seeded by VERIF_SEED)
+    t = model.country_table()
+    cols = [c for c in t.columns if c not in ("iso3", "country") and np.issubdtype(t[c].dtype, np.number)]
+    rng = np.random.RandomState(ctx.seed * 7919 + ctx.shard)
+    for _ in range(4 if thorough else (1 if ctx.shard < 8 else 0)):
+        iso = ["ARG", "USA", "JPN", "NGA", "NZL", "IND", "FRA", "BRA"][rng.randint(8)]
+        ctx.count()
+        try:
+            column_pair(ctx, iso, cols[rng.randint(len(cols))], [0.5, 2.0][rng.randint(2)])
+        except Violation as v:
+            ctx.record_violation(v)
     if ctx.shard < len(BATCHES) * (4 if thorough else 1):
         try:
             run_batch(ctx, ctx.shard % len(BATCHES), [["after-the-random-history-of-shard", ctx.shard]])
@@ -307,6 +361,10 @@ def shard(ctx):
 
 def replay(case, ctx, count=True):
     global REFS
+    if case.get("kind") == "column_pair":
+        ctx.count()
+        column_pair(ctx, case["iso3"], case["column"], case["factor"])
+        return
     if REFS is None:
         prepare(ctx.tier)
     if count:
